@@ -73,6 +73,26 @@ theorem lexer_ne_of_toks {l l' : Lexer} {t : Token} {toks : List Token} (h : l.t
   have := congrArg List.length h'
   simp at this
 
+theorem tfChar_kwEnd {c : Char} (h : tfChar c = true) :
+    (isLower c || c = '_' || isDigit c || c = '(') = false := by
+  simp only [tfChar, Bool.or_eq_true, decide_eq_true_eq] at h
+  rcases h with (((((((h | h) | h) | h) | h) | h) | h) | h) | h <;> subst h <;> decide
+
+/-- what follows a term (blank space, an operator, `)`, `,`, `]`) ends a keyword literal: it is neither a
+function-name character nor `(` -/
+theorem TFollow.kwEnd {r : List Char} (h : TFollow r) : kwEnd r = true := by
+  obtain ⟨c, t, e, hc⟩ := h
+  cases r with
+  | nil => rfl
+  | cons d u =>
+    by_cases hw : Impl.isWs d = true
+    · have : ((d = ' ' ∨ d = '\n') ∨ d = '\r') ∨ d = '\t' := by simpa [Impl.isWs] using hw
+      rcases this with ((rfl | rfl) | rfl) | rfl <;> rfl
+    · rw [Cs.skipS_of_head (by simpa using hw)] at e
+      simp only [List.cons.injEq] at e
+      rw [Cf.kwEnd, e.1, tfChar_kwEnd hc]
+      rfl
+
 /-- a literal of the grammar is one literal token -/
 theorem FL_literal {r : List Char} {v : Json} (hD : D ≠ 0) (hin : Spec.skipS inp = inp)
     (h : Spec.literal inp = some (v, r)) (hf : TFollow r) :
@@ -93,17 +113,17 @@ theorem FL_literal {r : List Char} {v : Json} (hD : D ≠ 0) (hin : Spec.skipS i
   | true_ e hv =>
     subst hv
     refine FL_tok hD (hin.trans e) (by decide) (by decide) (fun l1 pre1 toks br h => ?_)
-    obtain ⟨l', s1, hst⟩ := lexFilter_true h
+    obtain ⟨l', s1, hst⟩ := lexFilter_true h hf.kwEnd
     exact ⟨l', _, _, s1, hst, _, rfl, .true_ _ _⟩
   | false_ e hv =>
     subst hv
     refine FL_tok hD (hin.trans e) (by decide) (by decide) (fun l1 pre1 toks br h => ?_)
-    obtain ⟨l', s1, hst⟩ := lexFilter_false h
+    obtain ⟨l', s1, hst⟩ := lexFilter_false h hf.kwEnd
     exact ⟨l', _, _, s1, hst, _, rfl, .false_ _ _⟩
   | null e hv =>
     subst hv
     refine FL_tok hD (hin.trans e) (by decide) (by decide) (fun l1 pre1 toks br h => ?_)
-    obtain ⟨l', s1, hst⟩ := lexFilter_null h
+    obtain ⟨l', s1, hst⟩ := lexFilter_null h hf.kwEnd
     exact ⟨l', _, _, s1, hst, _, rfl, .null _ _⟩
   | num sp x hn hx hv =>
     subst hv
